@@ -659,6 +659,65 @@ theorem historyDecodes_of_all (spec : MsgSpec) (h : List Op)
   intro op hop
   exact List.all_eq_true.mp hall op hop
 
+/-! ### the multi-path and the direct unset entry points are histories of single-path unsets -/
+
+/-- **`UnsetFields(p₁, …, pₙ)` is a history.** One call with several paths leaves the message in
+the state reached by the single-path calls for `p₁ … p_k` in this order, where `k = n` when the
+call succeeds and otherwise `p_k` is the first path that is rejected (paths after it are not
+processed; what the earlier ones did stays). So every theorem about histories of `Op`s — the
+refinement, `no_resurrection`, C10, C15 — covers the multi-path call; in particular a path whose
+field is not present is skipped and does not stop the later paths (`unsetPath` of an absent id is
+the identity with result ok). -/
+theorem unsetPaths_is_history (spec : MsgSpec) : ∀ (ps : List (Nat × Bytes)) (o : MsgObj),
+    ∃ k, k ≤ ps.length ∧
+      (o.unsetPaths spec ps).1 = MsgObj.run spec o ((ps.take k).map fun p => Op.unsetPath p.1 p.2) ∧
+      ((o.unsetPaths spec ps).2 = .ok () → k = ps.length)
+  | [], o => ⟨0, Nat.le_refl _, rfl, fun _ => rfl⟩
+  | (id, path) :: rest, o => by
+    unfold MsgObj.unsetPaths
+    cases h : o.unsetPath spec id path with
+    | mk o' r =>
+      cases r with
+      | ok u =>
+        obtain ⟨k, hk, hs, hok⟩ := unsetPaths_is_history spec rest o'
+        refine ⟨k + 1, by simp only [List.length_cons]; omega, ?_, ?_⟩
+        · simp only [List.take_succ_cons, List.map_cons, MsgObj.run, MsgObj.step, h]
+          exact hs
+        · intro hr
+          simp only [List.length_cons, hok hr]
+      | err =>
+        refine ⟨1, by simp only [List.length_cons]; omega, ?_, ?_⟩
+        · simp only [List.take_succ_cons, List.take_zero, List.map_cons, List.map_nil, MsgObj.run, MsgObj.step, h]
+        · intro hr; cases hr
+      | panic =>
+        refine ⟨1, by simp only [List.length_cons]; omega, ?_, ?_⟩
+        · simp only [List.take_succ_cons, List.take_zero, List.map_cons, List.map_nil, MsgObj.run, MsgObj.step, h]
+        · intro hr; cases hr
+
+theorem cutDot_nodot : ∀ (p : Bytes), (∀ c ∈ p, c ≠ 46) → cutDot p = (p, [])
+  | [], _ => rfl
+  | c :: rest, h => by
+    have hc : c ≠ 46 := h c (List.mem_cons_self ..)
+    have ih := cutDot_nodot rest (fun x hx => h x (List.mem_cons_of_mem _ hx))
+    simp only [cutDot, hc, if_false, ih]
+
+/-- **`Composite.UnsetSubfield(tag)` called on the field object** (`m.GetField(id)`) of a present
+composite whose subfield `tag` is set does exactly what `m.UnsetFields("id.tag")` does. (When the
+subfield is not set, the path form leaves the object alone while the direct call re-creates the
+unmarked subfield object — which no observer distinguishes from the old one unless the history
+contains a failed decode, KF11.) -/
+theorem unsetSubDirect_eq_unsetPath (spec : MsgSpec) (o : MsgObj) (id : Nat) (tag : Tag)
+    (cs : CompSpec) (subs : List (Tag × Field)) (objs : List (Tag × FieldObj)) (set : List Tag)
+    (hp : o.present.contains id = true) (hf : spec.fieldOf id = some (.comp cs subs))
+    (ho : o.get id (.comp cs subs) = .comp objs set) (hset : set.contains tag = true)
+    (hne : tag ≠ []) (hdot : ∀ c ∈ tag, c ≠ 46) (hspec : lookupField subs tag = true) :
+    o.unsetSubDirect spec id tag = o.unsetPath spec id tag := by
+  have hemp : tag.isEmpty = false := by cases tag with | nil => exact absurd rfl hne | cons _ _ => rfl
+  unfold MsgObj.unsetSubDirect MsgObj.unsetPath
+  simp only [hf, ho, hp, if_true, hemp, hspec, Bool.false_eq_true, if_false]
+  simp only [Field.unsetSubs, hemp, Bool.false_eq_true, if_false, cutDot_nodot tag hdot, hset, if_true,
+    List.isEmpty_nil, hspec]
+
 /-! ### the hypothesis `HistoryDecodes` can not be dropped -/
 section Witness
 open ObjDemo
@@ -697,6 +756,11 @@ example : HistoryDecodes spec (populate ++ [.unsetPath 55 [48, 97], .pack, .unpa
   historyDecodes_of_all _ _ (by decide)
 -- unsetPath takes effect on a set subfield, and the sibling stays
 example : ((MsgObj.run spec spec.newMsg (populate ++ [.unsetPath 55 [48, 97]])).content spec [55]).fields.length = 1 := by
+  decide
+-- the multi-path unset: a path of an absent field first, then two present ones - all three are processed
+example : ((MsgObj.run spec spec.newMsg populate).unsetPaths spec [(99, []), (2, []), (55, [48, 97])]).2 = .ok () := by
+  decide
+example : (((MsgObj.run spec spec.newMsg populate).unsetPaths spec [(99, []), (2, []), (55, [48, 97])]).1.present.contains 2) = false := by
   decide
 -- a clean composite object with something to unset
 example : (Field.comp compSpec compSubs).distinctTags = true := by decide
